@@ -4,7 +4,7 @@
 (* variant, data, seed, hyper-parameters) together with the PLAN of        *)
 (* environments it must be run in: plan = <<threads, repetitions>> pairs   *)
 (* (threads = 0: rayon's global pool), each executed in nproc fresh        *)
-(* processes.  Five families:                                              *)
+(* processes.  Six families:                                               *)
 (*   tie  : every small labelled lattice data set (sorted multisets of     *)
 (*          (x, z, label) rows, labels an initial segment) x the           *)
 (*          estimators whose result can hinge on a tie / on map order      *)
@@ -14,6 +14,8 @@
 (*   blob : every estimator variant of the catalogue x generated data sets *)
 (*   hook : k-means family on small data with the kmeans.par hook recorded *)
 (*          under the full thread plan (binds the schedule model)          *)
+(*   hookbig : the same estimators on >= 9 000 rows, hook on (coarse loop     *)
+(*          events + the value of every inertia reduction)                 *)
 (*   big  : k-means family on data large enough for the loops to be split  *)
 (*          into many pieces, full thread plan                             *)
 (***************************************************************************)
@@ -33,8 +35,14 @@ BlobSets == IF Tier = "quick" THEN {<<40, 2, 2, 1>>, <<150, 3, 3, 2>>, <<150, 3,
                   <<90, 2, 3, 7>>, <<200, 3, 6, 8>>}
 HookSets == IF Tier = "quick" THEN {<<9, 2, 3, 1>>, <<24, 2, 3, 2>>}
             ELSE {<<9, 2, 3, 1>>, <<24, 2, 3, 2>>, <<40, 3, 4, 3>>, <<17, 1, 2, 4>>}
-BigSets  == IF Tier = "quick" THEN {<<1500, 3, 4, 1>>}
-            ELSE {<<1500, 3, 4, 1>>, <<6000, 2, 5, 2>>, <<3000, 5, 3, 3>>}
+\* (the big family must reach sizes at which an implementation would switch to parallel reductions:
+\*  a size-gated parallel sum -- threshold 8192 rows -- was missed while this family stopped at 6000)
+BigSets  == IF Tier = "quick" THEN {<<1500, 3, 4, 1>>, <<20000, 2, 3, 2>>}
+            ELSE {<<1500, 3, 4, 1>>, <<6000, 2, 5, 2>>, <<3000, 5, 3, 3>>, <<20000, 2, 3, 2>>, <<12000, 3, 4, 4>>, <<40000, 2, 5, 5>>}
+
+\* hooked k-means on data large enough for size-gated code paths: the hook logs these loops coarsely
+\* (no row events) but reports every reduction and the value it produced
+HookBigSets == IF Tier = "quick" THEN {<<20000, 2, 3, 2>>} ELSE {<<20000, 2, 3, 2>>, <<40000, 2, 5, 5>>, <<9000, 3, 4, 6>>}
 
 NoData == [g |-> "none", x |-> <<>>, y |-> <<>>, n |-> 0, d |-> 0, c |-> 0, seed |-> 0]
 Blob(b) == [NoData EXCEPT !.g = "blobs", !.n = b[1], !.d = b[2], !.c = b[3], !.seed = b[4]]
@@ -63,7 +71,10 @@ FracEsts == {<<"tree", "gini", FALSE, FALSE>>, <<"tree", "entropy", FALSE, FALSE
 PlanSeq  == << <<1, 2>>, <<4, 1>> >>                                            \* sequential estimators
 PlanFull == << <<1, 1>>, <<2, 2>>, <<3, 1>>, <<8, 1>>, <<16, 1>>, <<0, 1>> >>   \* rayon users
 PlanAll  == [q \in 1..17 |-> IF q = 17 THEN <<0, 1>> ELSE <<q, 1>>]              \* every pool size 1..16 + global pool
-PlanBig  == IF Tier = "quick" THEN PlanFull ELSE PlanAll
+\* big family: every pool size is also repeated (the same pool schedules the same loop differently)
+PlanBigQ == << <<1, 1>>, <<2, 2>>, <<3, 2>>, <<8, 2>>, <<16, 2>>, <<0, 2>> >>
+PlanBigT == [q \in 1..17 |-> IF q = 17 THEN <<0, 2>> ELSE IF q \in {2, 8, 16} THEN <<q, 2>> ELSE <<q, 1>>]
+PlanBig  == IF Tier = "quick" THEN PlanBigQ ELSE PlanBigT
 
 \* ---- catalogue: <<estimator, variant, uses rayon, uses seed>>
 Catalogue == {
@@ -133,6 +144,8 @@ Init ==
         case = Mk("blob", e, Blob(b), sd, 3, IF e[3] THEN PlanFull ELSE PlanSeq, 2, FALSE)
   \/ \E e \in HookEsts, b \in HookSets : \E sd \in SeedsOf(e) :
         case = Mk("hook", e, Blob(b), sd, 3, PlanFull, 2, TRUE)
+  \/ \E e \in HookEsts, b \in HookBigSets : \E sd \in SeedsOf(e) :
+        case = Mk("hookbig", e, Blob(b), sd, 3, PlanBig, 2, TRUE)
   \/ \E e \in BigEsts, b \in BigSets : \E sd \in SeedsOf(e) :
         case = Mk("big", e, Blob(b), sd, 4, PlanBig, 2, FALSE)
 
